@@ -67,7 +67,7 @@ var implOrder = []string{"stringlabels", "slicelabels", "dedupelabels"}
 
 func primary(f gallina.Flags) {
 	meta := gallina.NewMeta("C39", f.Seed, f.Tier)
-	meta.Rule = "corpus of fixed programs + seeded random programs over Builder(Reset/Set/Del/Keep/Labels/Get/Range), ScratchBuilder(Reset/Add/Sort/Assign/Labels), New/FromStrings/FromMap and symbol-table rebuilds on 4 registers, plus a stream of content-identical label sets built in different (pre-filled) symbol tables around the dedupelabels index-width boundaries; 75% follow the documented protocol (cross-build equality required), 25% do not (each build only compared with its own model); names share first bytes / prefixes, values include empty, quotes, UTF-8, lengths 254/255/256 and (rarely) >= 65535; non-trivial = protocol program in which at least two registers end non-empty and a Builder.Labels with pending add or del was executed; distinct by program text"
+	meta.Rule = "corpus of fixed programs + seeded random programs over Builder(Reset/Set/Del/Keep/Labels/Get/Range), ScratchBuilder(Reset/Add/Sort/Assign/Labels), New/FromStrings/FromMap and symbol-table rebuilds on 4 registers, plus a stream of content-identical label sets built in different (pre-filled) symbol tables around the dedupelabels index-width boundaries, plus a stream of label sets whose hash input is 1000..1100 bytes (exactly 1022..1026, single huge value, many medium labels, the 1 KiB switch at each label position) with one-byte variants of the switching label, StableHash compared across builds and with xxhash64 of (name 0xff value 0xff)* computed from Range; 75% follow the documented protocol (cross-build equality required), 25% do not (each build only compared with its own model); names share first bytes / prefixes, values include empty, quotes, UTF-8, lengths 254/255/256 and (rarely) >= 65535; non-trivial = protocol program in which at least two registers end non-empty and a Builder.Labels with pending add or del was executed; distinct by program text"
 	if implName() != "stringlabels" {
 		panic("primary must be the default (stringlabels) build, got " + implName())
 	}
@@ -88,7 +88,12 @@ func primary(f gallina.Flags) {
 		progs = append(progs, crossTableProg(f.Seed, i, f.Tier))
 		corpusName = append(corpusName, "cross-table")
 	}
-	n := f.Count(68, 2000)
+	nb := f.Count(14, 150)
+	for i := 0; i < nb; i++ {
+		progs = append(progs, bigSetProg(f.Seed, i, f.Tier))
+		corpusName = append(corpusName, "hash-buffer-boundary")
+	}
+	n := f.Count(60, 2000)
 	for i := 0; i < n; i++ {
 		progs = append(progs, genProg(f.Seed, i, f.Tier))
 		corpusName = append(corpusName, "")
